@@ -40,6 +40,13 @@ CHECKS = {
          "unique and stable across handles and reopen.",
          "A name equal to the id of a sibling in the same container is treated as out of domain (ambiguous key).",
          "DESIGN.md 4/C03"),
+ "C04": ("Hypothesis-generated build+delete programs, metamorphic prune oracle on the canonical walk + raw HDF5 scan",
+         "On densely cross-linked generated files every delete (by name, id, index, negative index, object; every "
+         "entity kind) must turn the observed walk W0 into exactly prune(W0, ids of the victim's subtree): nothing "
+         "else changes, no list or slot yields a deleted id, and a raw h5py scan finds no object with a deleted "
+         "entity_id; unlink ops remove exactly one reference and no entity.",
+         "Dimension links are generated inside one block (no documented use links across blocks); timestamps are "
+         "ignored here (C19).", "DESIGN.md 4/C04"),
 }
 PENDING = {}
 
